@@ -213,6 +213,9 @@ type Response struct {
 	// Prefix is sent before the status line (stray line ends or blanks such
 	// as "\r\n", "\n", " ", "\t", "\r\n\r\n"); normally empty.
 	Prefix     string `json:"prefix,omitempty"`
+	// RawStatusLine, if non-empty, is sent verbatim as the first line instead of
+	// Version SP Status [SP Reason] (for lines with fewer than two separators).
+	RawStatusLine string `json:"raw_status_line,omitempty"`
 	Version    string `json:"version"`                // token before the first SP, e.g. "HTTP/1.1"
 	Status     string `json:"status"`                 // token between the first and the second SP
 	NoReasonSP bool   `json:"no_reason_sp,omitempty"` // status line ends right after the status token (no second SP, no reason)
@@ -239,12 +242,16 @@ func eol(lf bool) string {
 func (r *Response) Head(key string) []byte {
 	var b bytes.Buffer
 	b.WriteString(r.Prefix)
-	b.WriteString(r.Version)
-	b.WriteByte(' ')
-	b.WriteString(r.Status)
-	if !r.NoReasonSP {
+	if r.RawStatusLine != "" {
+		b.WriteString(r.RawStatusLine)
+	} else {
+		b.WriteString(r.Version)
 		b.WriteByte(' ')
-		b.WriteString(r.Reason)
+		b.WriteString(r.Status)
+		if !r.NoReasonSP {
+			b.WriteByte(' ')
+			b.WriteString(r.Reason)
+		}
 	}
 	b.WriteString(eol(r.StatusLF))
 	for i := range r.Lines {
